@@ -88,16 +88,25 @@ func L2Run(r *evid.Run) {
 	var mu sync.Mutex
 	var samples []any
 	families := map[string]int{}
+	refetchSeen := 0
 	l2.RunScenariosCB(r, n, L2ChildTimeout, L2Scenario, func(res *l2.Result) {
 		mu.Lock()
 		defer mu.Unlock()
 		if res.Sample != nil && len(samples) < 4 {
 			samples = append(samples, res.Sample)
 		}
-		families[strings.SplitN(res.Fingerprint, "|", 2)[0]]++
+		fam := strings.SplitN(res.Fingerprint, "|", 2)[0]
+		families[fam]++
+		if fam == L2Refetch && res.Nontrivial {
+			refetchSeen++
+		}
 	})
 	mu.Lock()
 	defer mu.Unlock()
+	r.Set("l2_refetch_scenarios_with_failed_download_and_retry", refetchSeen)
+	if refetchSeen == 0 {
+		r.Inconclusive("l2: no l2-refetch scenario reached a failed block download followed by a retry")
+	}
 	r.Set("l2_samples", samples)
 	r.Set("l2_scenarios_by_family", families)
 }
